@@ -23,7 +23,8 @@ sys.path.insert(0, HERE)
 REPO = os.environ.get("VERIF_REPO", "/repo")
 
 
-def make_scratch():
+def make_scratch(REPO=None):
+    REPO = REPO or globals()["REPO"]
     d = tempfile.mkdtemp(prefix="psutil-selftest-")
     shutil.copytree(os.path.join(REPO, "psutil"), os.path.join(d, "psutil"),
                     ignore=shutil.ignore_patterns("*.so", "__pycache__", "tests"))
@@ -34,9 +35,9 @@ def make_scratch():
     return d
 
 
-def run_variant(v):
+def run_variant(v, repo=None):
     prop, name, file, edits, expect = v["prop"], v["name"], v["file"], v["edits"], v["expect"]
-    d = make_scratch()
+    d = make_scratch(repo)
     try:
         path = os.path.join(d, file)
         with open(path) as f:
